@@ -217,6 +217,9 @@ func (s *Sched) settle() {
 				if t.state == realblocked && t.status == "" {
 					t.status = "parked"
 					s.RealParked++
+					if s.OnRealPark != nil {
+						s.OnRealPark(t)
+					}
 				}
 			}
 			return
@@ -236,14 +239,18 @@ func (s *Sched) settle() {
 // graceWait is called when no task is runnable while some are parked in channel operations: it gives goroutines
 // outside the scheduler (there are none in the code under test itself, but the operation may involve the standard
 // library) a moment to complete one, and reports whether a task became runnable. When the code under test created
-// timers or deadlines the scheduler does not control, it waits for them as long as it takes (the wall-clock guard of
-// Run ends a run that waits too long - trouble of the machinery, not a verdict).
+// timers or deadlines the scheduler does not control, the run is ended after three seconds and marked TimeStall: no
+// verdict about completion is drawn from it.
 //
 //go:norace
 func (s *Sched) graceWait() bool {
 	const nap = time.Millisecond
+	limit := 300
+	if s.TimeSources > 0 {
+		limit = 3000
+	}
 	good := 0
-	for good < 300 || s.TimeSources > 0 {
+	for good < limit {
 		t0 := time.Now()
 		time.Sleep(nap)
 		if time.Since(t0) < 20*nap {
@@ -255,6 +262,12 @@ func (s *Sched) graceWait() bool {
 				return true
 			}
 		}
+	}
+	if s.TimeSources > 0 {
+		// Something outside the scheduler (a ticker, a re-armed timer, a context deadline of the code under test) may
+		// still complete the operation - in real time, which a scheduled run does not have. The run ends here without a
+		// verdict about completion; what the oracles recorded so far stands.
+		s.TimeStall = true
 	}
 	return false
 }
